@@ -53,7 +53,7 @@ RULE = ("case = (event|tick|exception spec, route); distinct = hash of (class, v
 REQUIRED_REACH = ["event_roundtrip_eval", "typed_fields_eval", "dynamic_fields_eval", "stop_result_eval", "nested_model_eval",
                   "stop_subclass_eval", "route_json_eval", "route_envelope_eval", "route_tick_eval", "tick_kind_eval",
                   "tick_step_result_eval", "tick_add_waiter_eval", "exception_roundtrip_eval", "exception_in_tick_eval",
-                  "nested_event_eval", "redefined_class_eval", "redefined_exception_class_eval"]
+                  "nested_event_eval", "redefined_class_eval", "redefined_exception_class_eval", "envelope_reread_eval"]
 ASSUMPTIONS = ["payloads are JSON-representable: None/bool/int/finite float/str/list/dict with str keys",
                "event classes are defined at module level (qualified name = module.ClassName)",
                "AddWaiter.requirements are dropped by design (has_requirements flag) and are not compared"]
@@ -588,6 +588,71 @@ def check_event_case(env, case, acc):
     report_event(acc, diffs, route, case)
 
 
+def _mutate_in_place(ev):
+    """what a consumer may do with an event it was handed: change it in place (dynamic fields, containers, the result)"""
+    n = 0
+    try:
+        for k, v in list(ev._data.items()):
+            if isinstance(v, list):
+                v.append("mutated")
+                n += 1
+            elif isinstance(v, dict):
+                v["mutated"] = True
+                n += 1
+        ev["__touched"] = 1
+        n += 1
+    except Exception:  # noqa: BLE001
+        pass
+    try:
+        r = getattr(ev, "result", None)
+        if isinstance(r, list):
+            r.append("mutated")
+            n += 1
+        elif isinstance(r, dict):
+            r["mutated"] = True
+            n += 1
+    except Exception:  # noqa: BLE001
+        pass
+    for name in getattr(type(ev), "model_fields", {}):
+        try:
+            v = getattr(ev, name)
+            if isinstance(v, list):
+                v.append("mutated")
+                n += 1
+            elif isinstance(v, dict):
+                v["mutated"] = True
+                n += 1
+        except Exception:  # noqa: BLE001
+            pass
+    return n
+
+
+def check_envelope_reread(env, case, acc):
+    """One envelope object, read twice: the first event handed out is changed in place by its consumer; the second read must still
+    yield the event that was serialized (an envelope is a value, e.g. a stored event served to several subscribers)."""
+    try:
+        orig = env.event(case["ev"])
+        pristine = env.event(case["ev"])
+    except Exception:  # noqa: BLE001
+        return
+    EM = env.EventEnvelopeWithMetadata
+    try:
+        envelope = EM.model_validate_json(EM.from_event(orig).model_dump_json())
+        first = envelope.load_event()
+        if _mutate_in_place(first) == 0:
+            return
+        second = envelope.load_event()
+    except Exception:  # noqa: BLE001  (the one-shot routes report round-trip failures)
+        return
+    acc.hit("envelope_reread_eval")
+    diffs = []
+    event_diff(env, pristine, second, acc, diffs)
+    if diffs:
+        acc.violation({"mech": "event_roundtrip_mismatch", "aspect": diffs[0][0], "second_read_after_consumer_mutation": True},
+                      f"[env_meta_qn] {type(orig).__name__}: the first event loaded from an envelope was changed in place; loading the SAME envelope again gives {diffs[0][1]}"[:600],
+                      {**case, "kind": "reread"})
+
+
 def tick_events(env, t):
     """Yield (path, kind, value) for every event / exception / class position of a tick."""
     tk, r = env.tk, env.res
@@ -880,6 +945,8 @@ def run_case(env, case, acc):
     k = case["kind"]
     if k == "redefined":
         return redefined_class_case(env, case, acc)
+    if k == "reread":
+        return check_envelope_reread(env, case, acc)
     if k == "event":
         check_event_case(env, case, acc)
     elif k == "tick":
@@ -914,6 +981,7 @@ def run_shard(shard):
                 if nt:
                     acc.sig(h([sh, route]))
                 run_case(env, case, acc)
+            check_envelope_reread(env, {"kind": "reread", "route": "env_meta_qn", "ev": spec}, acc)
             acc.sample({"kind": "event", "route": "(all)", "ev": spec})
         elif r < 0.85:
             spec = gen_tick(rnd)
